@@ -281,6 +281,60 @@ theorem qinsertAll_some_eq_take (n : Nat) (es : List (κ × β)) :
   have := qinsertAll_some_take n es ([] : List (κ × β))
   simpa [qsortAll] using this
 
+theorem qinsertAll_nil_eq (m : Option Nat) (es : List (κ × β)) :
+    qinsertAll m es [] = match m with
+      | none => qsortAll es
+      | some n => (qsortAll es).take n := by
+  cases m with
+  | none => rfl
+  | some n => exact qinsertAll_some_eq_take n es
+
+theorem qinsertAll_nil_sublist (m : Option Nat) (es : List (κ × β)) :
+    (qinsertAll m es []).Sublist (qsortAll es) := by
+  rw [qinsertAll_nil_eq]
+  cases m with
+  | none => exact List.Sublist.refl _
+  | some n => exact List.take_sublist _ _
+
+theorem mem_of_mem_qinsertAll_nil {m : Option Nat} {es : List (κ × β)} {e : κ × β}
+    (h : e ∈ qinsertAll m es []) : e ∈ es :=
+  (qsortAll_perm es).mem_iff.1 ((qinsertAll_nil_sublist m es).subset h)
+
+theorem qinsertAll_nil_length (m : Option Nat) (es : List (κ × β)) :
+    (qinsertAll m es []).length = match m with
+      | none => es.length
+      | some n => min n es.length := by
+  rw [qinsertAll_nil_eq]
+  cases m with
+  | none => exact qsortAll_length es
+  | some n => simp [qsortAll_length]
+
+/-- the head of a freshly built (non-degenerate) queue is a maximal entry -/
+theorem qinsertAll_nil_head {m : Option Nat} {es : List (κ × β)} (hes : es ≠ []) (hm : m ≠ some 0) :
+    ∃ e rest, qinsertAll m es [] = e :: rest ∧ e ∈ es ∧ ∀ e' ∈ es, e'.1 ≤ e.1 := by
+  have hlen := qsortAll_length es
+  have hsorted := qsortAll_sorted es
+  have hperm := qsortAll_perm es
+  cases hS : qsortAll es with
+  | nil =>
+    rw [hS] at hlen
+    exact absurd (List.length_eq_zero_iff.1 hlen.symm) hes
+  | cons e S' =>
+    rw [hS] at hsorted hperm
+    have hmax : ∀ e' ∈ es, e'.1 ≤ e.1 := by
+      intro e' he'
+      rcases List.mem_cons.1 (hperm.mem_iff.2 he') with rfl | h'
+      · exact le_refl _
+      · exact hsorted.head_ge e' h'
+    have hmem : e ∈ es := hperm.mem_iff.1 List.mem_cons_self
+    rw [qinsertAll_nil_eq, hS]
+    cases m with
+    | none => exact ⟨e, S', rfl, hmem, hmax⟩
+    | some n =>
+      cases n with
+      | zero => exact absurd rfl hm
+      | succ n => exact ⟨e, S'.take n, rfl, hmem, hmax⟩
+
 /-- stability of the insertion sort: entries with equal keys stay in insertion order -/
 theorem qinsertRaw_filter_key (k : κ) (v : β) {q : List (κ × β)} (h : QSorted q) (k0 : κ) :
     (qinsertRaw leB k v q).filter (fun e => decide (e.1 = k0)) =
